@@ -260,8 +260,19 @@ Definition read_short (k : nat) (bs : list byte) : option (list byte * list byte
   | _, [] => None
   | _, _ => Some (pad_back k (firstn k bs), skipn k bs)
   end.
-(* io.ReadFull: exactly k bytes or an error *)
-Definition read_exact (k : nat) (bs : list byte) : option (list byte * list byte) := take k bs.
+(* io.ReadFull: exactly k bytes or an error.  Same function as Compact.take (lemma
+   read_exact_take in MonadLemmas.v), written without measuring the whole input first *)
+Fixpoint read_exact (k : nat) (bs : list byte) : option (list byte * list byte) :=
+  match k with
+  | O => Some ([], bs)
+  | S k' => match bs with
+            | [] => None
+            | x :: r => match read_exact k' r with
+                        | Some (a, r') => Some (x :: a, r')
+                        | None => None
+                        end
+            end
+  end.
 
 (* decodeState.ReadByte: b := make([]byte, 1); ds.Reader.Read(b) *)
 Definition read_byte (bs : list byte) : M (byte * list byte) :=
